@@ -263,7 +263,31 @@ static void c07_exec(const Plan &plan, Verdict &v)
 	if (!build_artefact(plan, file, plain, info, err)) { v.fail("harness", "harness/artefact", "artefact: " + err); return; }
 	bool has_fault = false;
 	for (auto &op : plan.ops) if (op.name == "sfault") has_fault = true;
+	Bytes clean_file = file;
 	apply_storage_faults(plan, file, v);
+	// plaintext offset up to which both decoders must deliver identical bytes whatever happens: the Blocks
+	// that end before the first damaged byte (spoiled Blocks count as damage at their header)
+	size_t intact_plain = plain.size();
+	{
+		size_t d0 = 0, lim = std::min(file.size(), clean_file.size());
+		while (d0 < lim && file[d0] == clean_file[d0]) ++d0;
+		bool damaged = d0 < lim || file.size() != clean_file.size() || info.spoiled_blocks;
+		if (damaged) {
+			size_t acc = 0, bi = 0, spoil = (size_t)plan.p("art0_spoil_block", 0);
+			for (auto &f : info.fields) {
+				if (f.field != "block_header") continue;
+				// the Block ends where the next field group starts; compare with its header offset only:
+				// a Block whose header starts at or after d0 is not intact, nor is one that contains d0
+				size_t next_start = file.size();
+				for (auto &g : info.fields) if ((g.field == "block_header" || g.field == "index") && g.off > f.off) { next_start = std::min(next_start, g.off); }
+				bool intact = next_start <= d0 && !(spoil && bi + 1 >= spoil);
+				if (!intact) break;
+				acc += bi < info.block_plain_sizes.size() ? info.block_plain_sizes[bi] : 0;
+				++bi;
+			}
+			intact_plain = acc;
+		}
+	}
 
 	uint32_t flags = (uint32_t)plan.p("flags");
 	bool finish = plan.p("finish", 1) != 0;
@@ -320,8 +344,7 @@ static void c07_exec(const Plan &plan, Verdict &v)
 	if (ref.status != LZMA_STREAM_END && ref.status != LZMA_OK && mt.out.size() != ref.out.size() && info.block_plain_sizes.size() == info.n_blocks) {
 		const Bytes &a = mt.out.size() < ref.out.size() ? mt.out : ref.out, &b = mt.out.size() < ref.out.size() ? ref.out : mt.out;
 		size_t d = b.size() - a.size();
-		size_t start = 0;   // plaintext offset where the Block begins in which the reference stopped
-		for (size_t n : info.block_plain_sizes) { if (start + n > ref.out.size()) break; start += n; }
+		size_t start = std::min(intact_plain, ref.out.size());   // end of the last Block that lies entirely before the damage
 		// Blocks before the failing one: byte-identical. Inside the failing Block: a plain prefix relation
 		// without BCJ; behind a BCJ filter the bytes of the failing call are delivered unfiltered
 		// (simple_coder.c returns the error before filtering what the next coder just produced), so
